@@ -18,6 +18,8 @@
 //                                  account differs from the hash of its raw script, for C17's reason <class>
 //   state-divergence:unexplained   A and B differ although every signature set derives the same account both ways
 //   nondeterministic:<what>        A and A2 differ
+//   restart-divergence             the LAST block of every line that uses or updates a governed opcode price is also executed by a freshly started child process on a copy of A's
+//                                  store taken before that block: it must derive the same states / state hash / root / write set
 package main
 
 import (
@@ -28,6 +30,7 @@ import (
 	"fmt"
 	"math/big"
 	"os"
+	osexec "os/exec"
 	"path/filepath"
 	"sort"
 	"strconv"
@@ -45,6 +48,7 @@ import (
 	"github.com/ontio/ontology/core/validation"
 	ontErrors "github.com/ontio/ontology/errors"
 	"github.com/ontio/ontology/smartcontract/event"
+	"github.com/ontio/ontology/smartcontract/service/native/global_params"
 	"github.com/ontio/ontology/smartcontract/service/native/ont"
 	nutils "github.com/ontio/ontology/smartcontract/service/native/utils"
 	"verif/harness/internal/hx"
@@ -240,7 +244,11 @@ type txSpec struct {
 }
 
 func invokeRaw(code []byte, payer common.Address, gp uint64, nonce uint32, sets []*sg.SigSet) []byte {
-	p := &sg.TxPlan{TxType: byte(types.InvokeNeo), Nonce: nonce, GasP: gp, GasL: 200000, Payer: payer,
+	return invokeRawGL(code, payer, gp, 200000, nonce, sets)
+}
+
+func invokeRawGL(code []byte, payer common.Address, gp, gl uint64, nonce uint32, sets []*sg.SigSet) []byte {
+	p := &sg.TxPlan{TxType: byte(types.InvokeNeo), Nonce: nonce, GasP: gp, GasL: gl, Payer: payer,
 		Payload: &payload.InvokeCode{Code: code}, Sets: sets}
 	p.SignAll()
 	return p.Assemble()
@@ -430,6 +438,21 @@ func exec(line string) hx.Result {
 	}
 	var nonce uint32
 	ethNonce := make([]uint64, nEth)
+	lastSeal := -1 // index of the op that seals the last non-empty block: that block is also executed by a FRESH PROCESS
+	{
+		pending := 0
+		for i, op := range strings.Split(f[1], ";") {
+			if op == "b" {
+				if pending > 0 {
+					lastSeal = i
+				}
+				pending = 0
+			} else {
+				pending++
+			}
+		}
+	}
+	tail := false
 	deliver := func(specs []txSpec) (oa, ob blockObs, txsB []*types.Transaction) {
 		var txsA, txsA2 []*types.Transaction
 		for _, s := range specs {
@@ -449,7 +472,23 @@ func exec(line string) hx.Result {
 		blkB, err := types.BlockFromRawBytes(append([]byte{}, rawBlk...))
 		must(err)
 		blkA2 := &types.Block{Header: blk.Header, Transactions: txsA2}
+		childDir := ""
+		if tail {
+			// the store as it is before the tail block, for the fresh process
+			childDir = filepath.Join(base, fmt.Sprintf("l%d-child", lineNo))
+			must(ledgerkit.CopyDir(A.kit.Dir, childDir))
+		}
 		oa = A.run(blk)
+		if tail {
+			got, err := runChild(childDir, rawBlk)
+			os.RemoveAll(childDir)
+			want := fmt.Sprintf("%s %s %s %s", oa.states, oa.hash, oa.root, oa.ws)
+			if err != nil {
+				fail("restart-leg-error", "fresh-process leg failed: "+err.Error())
+			} else if got != want {
+				fail("restart-divergence", fmt.Sprintf("a freshly started process executing the last block on a copy of the store taken before it disagrees with the node that ran since genesis (states, state hash, root, write set): fresh %q, running %q", got, want))
+			}
+		}
 		ob = B.run(blkB)
 		oa2 := A2.run(blkA2)
 		if oa.err != "" || ob.err != "" || oa2.err != "" {
@@ -492,12 +531,14 @@ func exec(line string) hx.Result {
 	var cur []txSpec
 	kinds := map[string]bool{}
 	diverged := false
-	for _, op := range strings.Split(f[1], ";") {
+	for oi, op := range strings.Split(f[1], ";") {
 		if op == "b" {
 			if len(cur) == 0 {
 				outs = append(outs, "empty")
 				continue
 			}
+			// a process start costs ~2 s here: the fresh-process leg runs on the histories that touch governed prices
+			tail = oi == lastSeal && (strings.Contains(f[1], "fee:") || strings.Contains(f[1], "sha:"))
 			oa, ob, txsB := deliver(cur)
 			cur = nil
 			rootEq := oa.hash == ob.hash && oa.root == ob.root && oa.ws == ob.ws
@@ -531,6 +572,26 @@ func exec(line string) hx.Result {
 		}
 		p := strings.Split(op, ":")
 		kinds[p[0]] = true
+		if p[0] == "fee" { // fee:<v>  the operator sets the governed price of SHA256 and takes the snapshot (two transactions)
+			if len(p) != 2 {
+				return hx.Result{Out: "bad-op", Kind: "bad-op"}
+			}
+			if _, err := strconv.ParseUint(p[1], 10, 32); err != nil {
+				return hx.Result{Out: "bad-op", Kind: "bad-op"}
+			}
+			for _, call := range []struct {
+				m    string
+				args []interface{}
+			}{{"setGlobalParam", []interface{}{global_params.Params{{Key: "SHA256", Value: p[1]}}}}, {"createSnapshot", []interface{}{[]interface{}{}}}} {
+				nonce++
+				code, err := ledgerkit.NativeCode(nutils.ParamContractAddress, call.m, call.args)
+				must(err)
+				tx, err := ledgerkit.InvokeTx(code, 0, 200000, nonce, nil, book)
+				must(err)
+				cur = append(cur, txSpec{raw: tx.Raw})
+			}
+			continue
+		}
 		spec, ok := buildTx(p, &nonce, ethNonce)
 		if !ok {
 			return hx.Result{Out: "bad-op", Kind: "bad-op"}
@@ -655,10 +716,18 @@ func buildTx(p []string, nonce *uint32, ethNonce []uint64) (txSpec, bool) {
 		ss, pay, _, ok := sets(p[1], p[4])
 		tg, ok2 := num(p[2])
 		gp, ok3 := num(p[3])
-		if !(ok && ok2 && ok3) || tg >= nAcct {
+		var target common.Address // `z`: the all-zero address
+		if p[2] == "z" {
+			ok2 = true
+		} else if ok2 && tg < nAcct {
+			target = accts[tg].addr
+		} else {
+			ok2 = false
+		}
+		if !(ok && ok2 && ok3) {
 			return txSpec{}, false
 		}
-		code := append([]byte{0x14}, accts[tg].addr[:]...)
+		code := append([]byte{0x14}, target[:]...)
 		code = append(code, syscall("System.Runtime.CheckWitness")...)
 		if p[0] == "cwt" {
 			code = append(code, 0xF1)
@@ -666,6 +735,19 @@ func buildTx(p []string, nonce *uint32, ethNonce []uint64) (txSpec, bool) {
 			code = append(code, syscall("System.Runtime.Notify")...)
 		}
 		return txSpec{raw: invokeRaw(code, pay, gp, *nonce, ss)}, true
+	case "sha": // sha:<signer>.<sh>:<count>:<gasLimit>:<payer|->   PUSH 01, then <count> x SHA256, gas price 0: 1 + count*fee(SHA256) <= gasLimit ?
+		if len(p) != 5 {
+			return txSpec{}, false
+		}
+		ss, pay, _, ok := sets(p[1], p[4])
+		cnt, ok2 := num(p[2])
+		gl, ok3 := num(p[3])
+		if !(ok && ok2 && ok3) || cnt < 1 || cnt > 200 {
+			return txSpec{}, false
+		}
+		code := []byte{0x01, 0x01}
+		code = append(code, bytes.Repeat([]byte{0xA8}, int(cnt))...)
+		return txSpec{raw: invokeRawGL(code, pay, 0, gl, *nonce, ss)}, true
 	case "dep": // dep:<signer>.<sh>:<k>
 		if len(p) != 3 {
 			return txSpec{}, false
@@ -727,7 +809,65 @@ func capN(max int) {
 	}
 }
 
+// runChild executes the raw block in a freshly started process on the given copy of node A's ledger directory.
+func runChild(dir string, rawBlk []byte) (string, error) {
+	cmd := osexec.Command(os.Args[0])
+	cmd.Env = append(os.Environ(), "C02_CHILD_DIR="+dir, "C02_CHILD_BOOK="+hex.EncodeToString(keypair.SerializePublicKey(book.PublicKey)))
+	cmd.Stdin = strings.NewReader(hex.EncodeToString(rawBlk))
+	out, err := cmd.Output()
+	if err != nil {
+		return "", fmt.Errorf("%v: %s", err, string(out))
+	}
+	return strings.TrimSpace(string(out)), nil
+}
+
+// childMain: open the copied ledger like a restarted validating node, execute the block, print what was derived.
+func childMain(dir, bookHex string) {
+	ledgerkit.InitGlobals()
+	config.DefConfig.Common.EnableEventLog = true
+	pkb, err := hex.DecodeString(bookHex)
+	must(err)
+	pk, err := keypair.DeserializePublicKey(pkb)
+	must(err)
+	k, err := ledgerkit.Open(dir, &account.Account{PublicKey: pk})
+	must(err)
+	defer k.Close()
+	var in strings.Builder
+	buf := make([]byte, 1<<16)
+	for {
+		n, err := os.Stdin.Read(buf)
+		in.Write(buf[:n])
+		if err != nil {
+			break
+		}
+	}
+	raw, err := hex.DecodeString(strings.TrimSpace(in.String()))
+	must(err)
+	blk, err := types.BlockFromRawBytes(raw)
+	must(err)
+	for _, tx := range blk.Transactions {
+		if tx.TxType != types.EIP155 {
+			if e := validation.VerifyTransaction(tx); e != ontErrors.ErrNoError {
+				panic("child: transaction rejected by the validator")
+			}
+		}
+	}
+	nd := &node{kit: k}
+	res, err := k.Exec(blk)
+	must(err)
+	_ = nd
+	states := ""
+	for _, n := range res.Notify {
+		states += strconv.Itoa(int(n.State))
+	}
+	fmt.Printf("%s %s %s %s\n", states, hex.EncodeToString(res.Hash[:8]), hex.EncodeToString(res.MerkleRoot[:8]), wsDigest(res))
+}
+
 func main() {
+	if d := os.Getenv("C02_CHILD_DIR"); d != "" {
+		childMain(d, os.Getenv("C02_CHILD_BOOK"))
+		return
+	}
 	capN(300)
 	defer func() {
 		if base != "" {
@@ -736,7 +876,7 @@ func main() {
 	}()
 	hx.Main(hx.Prop{
 		ID:   "C02",
-		Rule: "sequences of 1-4 blocks of 1-6 transactions on three fresh real solo ledgers: native ONT/ONG transfers, CheckWitness scripts (throwing / notifying), contract deployment and APPCALL of a CheckWitness contract, EIP-155 transfers; signed by 9 accounts (P-256, Ed25519, SM2, Ethereum-type, secp256k1, P-384 single keys, 2-of-3, mixed 2-of-2 and mixed 2-of-4 multi-signature, carrying exactly m, m<sn<n or all n signatures, as payer and as non-payer) in every accepted script encoding (canonical, alternative key encoding, PUSHDATA1, unsorted keys, key count as bytes), gas price 0 or 2500, optional separate payer; non-trivial = every line",
+		Rule: "sequences of 1-4 blocks of 1-6 transactions on three fresh real solo ledgers: native ONT/ONG transfers, CheckWitness scripts (throwing / notifying), SHA256 loops whose success depends on the governed opcode fee with setGlobalParam+createSnapshot updates of that fee in between, contract deployment and APPCALL of a CheckWitness contract, EIP-155 transfers; signed by 9 accounts (P-256, Ed25519, SM2, Ethereum-type, secp256k1, P-384 single keys, 2-of-3, mixed 2-of-2 and mixed 2-of-4 multi-signature, carrying exactly m, m<sn<n or all n signatures, as payer and as non-payer) in every accepted script encoding (canonical, alternative key encoding, PUSHDATA1, unsorted keys, key count as bytes), gas price 0 or 2500, optional separate payer; non-trivial = every line",
 		Gen:  gen, Exec: exec, Corpus: corpus,
 		N: map[string]int{"quick": 40, "thorough": 600},
 	})
